@@ -68,3 +68,10 @@ Proof.
   intros He Es n locs h nx sf h' nx' sf' lr Hargs Hcall.
   apply (self_writes_bounded gen_program gen_summaries gen_pointsto extracted_program_checks e s n locs h nx sf h' nx' sf' lr Es Hargs Hcall).
 Qed.
+
+(** no source of randomness or ambient state other than numpy's global generator is called anywhere in the
+    analysed modules, and no call had to be classified fail-closed *)
+Theorem no_other_random_sources : other_random_sources = [].
+Proof. reflexivity. Qed.
+Theorem no_unclassified_calls : unclassified_calls = [].
+Proof. reflexivity. Qed.
